@@ -192,4 +192,7 @@ merge = Contract("C08.merge_intervals", target=lambda: ("ast", "bionumpy/arithme
                            ("running maximum dropped", "stops = np.maximum.accumulate(intervals.stop)", "stops = intervals.stop + 0"),
                            ("stop of the NEXT group's first member", "stop_mask = np.concatenate((valid_start_mask, [True]))", "stop_mask = np.concatenate(([True], valid_start_mask))")])
 
-CONTRACTS = [extend_to_size, clip, merge]
+# get_boolean_mask ends in GenomicRunLengthArray.from_intervals(merged starts, merged stops, size): its event/value layout (the contract proved
+# for C09) is instantiated here as well - for ANY size, i.e. also for coordinates that do not fit 32 bits.
+from contracts.c09 import mk_from_intervals      # noqa: E402
+CONTRACTS = [extend_to_size, clip, merge, mk_from_intervals("C08")]
